@@ -147,10 +147,12 @@ func counterDelta(ro *Roles, st *ssa.Store) (string, int) {
 // interprocedural path counting with defers
 
 type PathCounter struct {
-	p     *Prog
-	match func(ssa.Instruction) bool
-	memo  map[*ssa.Function][2]int
-	busy  map[*ssa.Function]bool
+	p *Prog
+	// NoDescend: a matching call counts as one and its callee is not entered
+	NoDescend bool
+	match     func(ssa.Instruction) bool
+	memo      map[*ssa.Function][2]int
+	busy      map[*ssa.Function]bool
 }
 
 func NewPathCounter(p *Prog, match func(ssa.Instruction) bool) *PathCounter {
@@ -174,6 +176,9 @@ func (pc *PathCounter) weight(fn *ssa.Function, in ssa.Instruction) (int, int) {
 		if pc.match(in) {
 			lo, hi = 1, 1
 		}
+	}
+	if pc.NoDescend && lo == 1 {
+		return lo, hi
 	}
 	switch x := in.(type) {
 	case *ssa.Call:
